@@ -265,6 +265,12 @@ def finalize(stats, tier, runs, distinct, samples, wall):
         "wall-clock is never a verdict; loops are detected by stream-call budget 4*(len+fields)+64 and confirmed by a line-step budget",
     ]
     problems = []
+    n_ok, n_bad = stats.get("instances", 0), stats.get("discarded_by_prepass", 0)
+    if n_bad > n_ok:
+        problems.append(f"FATAL: {n_bad} of {n_ok + n_bad} generated instances did not survive the clean encode/decode pre-pass "
+                        "(round-trip identity, property C01, is broken on this tree; this check cannot judge it)")
+    elif n_bad:
+        problems.append(f"{n_bad} generated instances discarded by the clean pre-pass")
     for p in ("probe_cut_on_field_boundary", "probe_cut_after_continuation_byte", "probe_cut_inside_field"):
         if not stats.get(p):
             problems.append(f"probe {p} never fired")
